@@ -198,14 +198,16 @@ def calculate_first_sets(grammar):
             if all(nullable[beta] for beta in rule.symbols):
                 if not nullable[rule.name]:
                     nullable[rule.name] = True
+                    # A nullable symbol has EPS in its first set:
+                    first[rule.name].add(EPS)
                     some_change = True
 
             # Update first sets:
             for beta in rule.symbols:
+                if first[beta] - {EPS} - first[rule.name]:
+                    first[rule.name] |= first[beta] - {EPS}
+                    some_change = True
                 if not nullable[beta]:
-                    if first[beta] - first[rule.name]:
-                        first[rule.name] |= first[beta]
-                        some_change = True
                     break
         if not some_change:
             break
@@ -247,11 +249,16 @@ class LrParserBuilder:
                 worklist.append(itm)
 
         def first2(itm):
-            # When using the first sets, create a copy:
-            f = set(self.first[itm.NextNext])
-            if EPS in f:
-                f.discard(EPS)
+            # First set of all symbols after the next symbol, followed by
+            # the look ahead of the item:
+            f = set()
+            for symbol in itm.production.symbols[itm.dotpos + 1 :]:
+                f |= self.first[symbol]
+                if EPS not in self.first[symbol]:
+                    break
+            else:
                 f.add(itm.look_ahead)
+            f.discard(EPS)
             return f
 
         # Start of algorithm:
